@@ -23,11 +23,11 @@ import (
 	"github.com/tigerwill90/fox"
 )
 
-const rule = "cases = (call sequence over {WriteHeader 100/103/101/200/404/500, Write 0/3 bytes, WriteString, ReadFrom with sources of 0/1/5 bytes and sources failing after 0/2 bytes, Flush}, " +
+const rule = "cases = (call sequence over {WriteHeader 100/150/101/200/404/500, Write 0/3 bytes, WriteString, ReadFrom with sources of 0/1/5 bytes and sources failing after 0/2 bytes, Flush}, " +
 	"underlying writer capability set in {plain, +ReaderFrom, +Flusher, +both}, underlying writer failing after k in {never,0,2,4} body bytes); all sequences up to a bounded length are enumerated, random longer ones; " +
 	"distinct by (sequence, capability set, k); non-trivial when the sequence contains a body operation or more than one header call"
 
-var opNames = []string{"WH100", "WH103", "WH101", "WH200", "WH404", "WH500", "W0", "W3", "WS3", "RF0", "RF1", "RF5", "RFfail2", "RFfail0", "Flush"}
+var opNames = []string{"WH100", "WH150", "WH101", "WH200", "WH404", "WH500", "W0", "W3", "WS3", "RF0", "RF1", "RF5", "RFfail2", "RFfail0", "Flush"}
 
 type event struct {
 	kind string // header, body, flush
@@ -196,8 +196,8 @@ func exec(f *fox.Router, seq []int, capSet, limit int) result {
 			switch opNames[op] {
 			case "WH100":
 				w.WriteHeader(100)
-			case "WH103":
-				w.WriteHeader(103)
+			case "WH150":
+				w.WriteHeader(150) // an informational code without a name: still not a final status
 			case "WH101":
 				w.WriteHeader(101)
 			case "WH200":
@@ -376,7 +376,7 @@ func main() {
 	maxLen := run.Pick(4, 5)
 	// regression sequences of fixed findings first
 	f0 := routerWithSeq()
-	for _, s := range [][]int{{12}, {9}, {11}, {3, 12}, {13, 7}} {
+	for _, s := range [][]int{{12}, {9}, {11}, {3, 12}, {13, 7}, {1, 4}, {1, 1, 7}} {
 		checkSeq(run, f0, s)
 	}
 	nOps := len(opNames)
@@ -418,7 +418,7 @@ func main() {
 	})
 	capabilities(run)
 	helpers(run)
-	run.Sample(map[string]any{"sequence": "WH103 RFfail2 W3 WH404", "capability_sets": capNames, "underlying_failure_points": limitsK})
+	run.Sample(map[string]any{"sequence": "WH150 RFfail2 W3 WH404", "capability_sets": capNames, "underlying_failure_points": limitsK})
 	run.Sample(map[string]any{"sequence": "RF0 WH500 RF5 Flush", "capability_sets": capNames, "underlying_failure_points": limitsK})
 }
 
